@@ -497,6 +497,16 @@ def rule_U3(ctx):
                                   txt, cnt, ", ".join(key(x) for x in a[1:])), f.loc(rep))
                 continue
             how, node = _hist_entry_index(f, lo)
+            if how == "u" and fname == "lbuf_undo":
+                # `hist_u -= 1; lo = &hist[hist_u]` is the same as &hist[--hist_u]
+                decs = [n for n, lv, op, rhs in stores(f.body)
+                        if lv_field(lv) and lv_field(lv)[1] == "hist_u" and not lv_field(lv)[2] and (
+                            op in ("pre--", "post--") or (op == "-=" and cval(rhs) == 1))]
+                if any(f.cfg.dominates(d_, node) and
+                       any(a["id"] == loop_["id"] for a in f.ancestors(d_["id"]))
+                       for d_ in decs
+                       for loop_ in [x for x in f.ancestors(node["id"]) if x["k"] in ("while", "for", "do")][:1]):
+                    how = "pre--"
             if how in kinds:
                 if how in ("u-1", "u"):
                     # needs a separate step of hist_u in the loop
